@@ -892,6 +892,52 @@ def port_fallback(k: Kit, rule: str) -> None:
               str(bad), fi.loc(fi.node))
 
 
+def build_pattern_witnesses(k: Kit, rule: str) -> None:
+    """HostPatternList.build_pattern: every address or subnet is numeric."""
+    import ipaddress
+    rep = k.rep
+    idx = k.idx
+    fi = k.func('pattern.HostPatternList.build_pattern')
+    body = [st for st in fi.node.body if not (
+        isinstance(st, ast.Expr) and isinstance(st.value, ast.Constant))]
+    wit = ['10.0.0.0/8', '10.1.2.3', 'fd00:db8::1', 'FD00:DB8::1', '::1',
+           'fe80::/10', '::ffff:1.2.3.4', '2001:0db8:0:0:0:0:0:1',
+           'host.example.com', '*.example.com', 'dead.beef.example', 'face',
+           '192.168.?.1']
+    bad = None
+    for pat in wit:
+        def on_call(nm, args, env):
+            if nm == 'CIDRHostPattern':
+                try:
+                    ipaddress.ip_network(args[0], strict=False)
+                except ValueError:
+                    return _Raise('ValueError')
+                return Obj('CIDR')
+            if nm == 'WildcardHostPattern':
+                return Obj('WILD')
+            return Obj('x')
+        try:
+            o = evaluate(idx, fi.module, body, {}, {'pattern': pat}, on_call)
+        except NotEvaluable as exc:
+            rep.error(rule, key(fi, 'not-evaluable'), str(exc))
+            return
+        try:
+            ipaddress.ip_network(pat, strict=False)
+            want = Obj('CIDR')
+        except ValueError:
+            want = Obj('WILD')
+        if not (o.kind == 'return' and o.value == want) and bad is None:
+            bad = (f'pattern {pat!r}: built as {o.value!r}, expected '
+                   f'{want!r} - an address written in another spelling of '
+                   'the same value (case, zero runs) no longer matches, so a '
+                   'negated entry stops excluding it and a from= / Match '
+                   'address / known_hosts entry stops applying')
+    rep.count('eval.build_pattern_witnesses', len(wit))
+    rep.check(bad is None, rule, key(fi, 'addresses are matched numerically'),
+              f'{len(wit)} patterns: CIDR pattern iff the text is an IPv4 / '
+              'IPv6 address or network', str(bad), fi.loc(fi.node))
+
+
 def r5(k: Kit) -> None:
     """Bracket escaping of host patterns; every line for a key is tried."""
     rep = k.rep
@@ -1060,3 +1106,15 @@ def run(idx, rep, tier):
              'lookup found no trusted entry, and the @revoked entries the '
              '[host]:port lookup found are part of the result either way')
     port_fallback(k, 'C17.R6')
+    build_pattern_witnesses(k, 'C17.R1')
+    # C17.R7: shared rule
+    from .c04 import r6 as _c04r6
+    rep.rule('C17.R7', 'lookups do not change the loaded file (= C04.R6): SSHKnownHosts._match builds its result in a fresh list and never extends a stored per-host entry list')
+    _before = len(rep.obligations)
+    _c04r6(k)
+    _kept = [o for o in rep.obligations[_before:] if 'known_hosts' in o.key or '_match' in o.key]
+    del rep.obligations[_before:]
+    rep.obligations.extend(_kept)
+    rep.floor('C17.R7', 'shared rows', len(_kept), 1)
+    for o in rep.obligations[_before:]:
+        o.rule = 'C17.R7'
